@@ -10,6 +10,7 @@ import builtins
 import collections
 import contextlib
 import hashlib
+import queue as _queue
 import threading
 
 import numpy as np
@@ -138,14 +139,24 @@ class SchedQueue:
         return c.items.get(digest(item), 0)
 
     def put(self, item, block=True, timeout=None):
-        self.ctl.point('put', lambda: self.maxsize <= 0 or len(self.items) < self.maxsize, q=self.name)
+        limited = (timeout is not None) or not block
+        self.ctl.point('put', lambda: self.maxsize <= 0 or len(self.items) < self.maxsize or limited, q=self.name)
+        if 0 < self.maxsize <= len(self.items):
+            self.ctl.log('put_timeout', q=self.name)
+            raise _queue.Full()
         k = self._ident(item)
         self.items.append((k, item))
         self.unfinished += 1
         self.ctl.log('put', q=self.name, item=k, qlen=len(self.items), unfinished=self.unfinished)
 
     def get(self, block=True, timeout=None):
-        self.ctl.point('get', lambda: len(self.items) > 0, q=self.name)
+        # a get with a time limit (or non-blocking) may give up whenever the queue is empty: under the scheduler the limit expires as
+        # soon as the thread is chosen at an empty queue - a timing any real clock admits
+        limited = (timeout is not None) or not block
+        self.ctl.point('get', lambda: len(self.items) > 0 or limited, q=self.name)
+        if not self.items:
+            self.ctl.log('get_timeout', q=self.name)
+            raise _queue.Empty()
         k, item = self.items.popleft()
         self.ctl.log('get', q=self.name, item=k, qlen=len(self.items), unfinished=self.unfinished)
         return item
